@@ -34,7 +34,7 @@ Fixpoint kv_eqb (a b : list (key * Z)) : bool :=
   | _, _ => false
   end.
 
-(* outcome codes after which the real tree is not compared with the model (only F_ZSEP still occurs) *)
+(* outcome codes after which the real tree would not be compared with the model (none is reachable any more) *)
 Definition structural (f : Z) : bool := 5 <=? f.
 
 (* walk the steps: model state, page map, first structural class reached by the model so far *)
